@@ -4,7 +4,7 @@ from . import _secp as S
 ID = "C06"
 EXTRA_TARGETS = ["Proofs/EcdsaRefine.vo", "Proofs/EcdsaAbstractInst.vo"]
 LEVEL = "partial"
-RULE = ("CROSS PRODUCT every way a signature is produced (13 ways: deterministic x hash x reverse_k, sign_message, caller nonce x hash incl. nonces with raw s above AND below n/2, digest signing x hash, randomised x hash x reverse_k) x recovery through the signer's object and after a compact round trip x message and digest entry point x compression marker, spec = the signer's key; every public function of src/signature/mod.rs and SighashSignature is reached by some op (hex and bytes variants, accessors, "
+RULE = ("digests 0, 1, n-1, n, n+1, 2^256-1 (reduced modulo n by every entry point) through digest signing -> recovery from the digest (direct and after the compact round trip) -> verify_hashbuf; CROSS PRODUCT every way a signature is produced (13 ways: deterministic x hash x reverse_k, sign_message, caller nonce x hash incl. nonces with raw s above AND below n/2, digest signing x hash, randomised x hash x reverse_k) x recovery through the signer's object and after a compact round trip x message and digest entry point x compression marker, spec = the signer's key; every public function of src/signature/mod.rs and SighashSignature is reached by some op (hex and bytes variants, accessors, "
         "get_public_key* and recover_public_key* cross-checked, from_compact_impl, RecoveryInfo::new / from_byte); signature objects "
         "with recovery info from the signer (used in memory, without a round trip), from from_compact_bytes and without recovery info "
         "(from_der) through to_compact_bytes(None / equal / different explicit info), recovery and verify_message; minimal (8-byte) and "
@@ -240,6 +240,24 @@ def cross_cases(A, rng, thorough):
     A("sig.cross", ["det", H(0), 1, "00", "sha256", 0, "00", "cmp", "d"])
 
 
+def digest_cases(A, rng, thorough):
+    """digests at and above the group order (and 0, 1, leading zeros) through sign_digest -> recovery from the same digest,
+    directly and after the compact round trip, and verify_hashbuf; both markers"""
+    H = S.h32
+    digs = [0, 1, N - 1, N, N + 1, 2 ** 256 - 1, N + 2 ** 128, 2 ** 255, 0xAB << 200]
+    for i, v in enumerate(digs):
+        d = rng.randrange(1, N) if i % 2 else 0x1111111111111111111111111111111111111111111111111111111111111111
+        for route in (("mem", "cmp") if thorough or v >= N - 1 else (("mem", "cmp")[i % 2],)):
+            A("sig.digest_cross", [H(d), (i + (route == "cmp")) % 2, H(v), route])
+        # the same through the raw entry point: a Python-made signature over z = v mod n, digest given unreduced
+        z = v % N
+        k = S.rfc6979(d, z)
+        r, s_, odd = S.sign(d, k, z)
+        A("sig.recover_digest", ["%02x" % (27 + odd + 4 * (i % 2)) + H(r) + H(s_), H(v)])
+    A("sig.digest_cross", [H(5), 1, "r:00:31", "mem"])
+    A("sig.digest_cross", [H(0), 1, H(5), "cmp"])
+
+
 def rscalar(rng):
     r = rng.random()
     if r < 0.25:
@@ -405,6 +423,7 @@ def generate(rng, tier):
     leading_zero_and_identity_cases(A, rng, thorough)
     audit_cases(A, rng, thorough)
     cross_cases(A, rng, thorough)
+    digest_cases(A, rng, thorough)
 
     # ---------------------------------------------------------------- sign -> compact -> parse -> recover through the library
     for _ in range(5 if not thorough else 96):
